@@ -9,7 +9,7 @@ EXPLANATION = (
     "quaternions / angles / measurements / offsets at once, that the tangent of every error component equals entry [i][j] "
     "of the reported Jacobian."
 )
-BOUNDS = "8 edge kinds x 2 vertices x every error component x every perturbation direction; exact real arithmetic (no rounding); SE(2) wrap excluded (derivative taken on the branch k=const)"
+BOUNDS = "8 edge kinds (fresh edge, and after a history: all queries evaluated once, then vertices moved in place / rebound) x 2 vertices x every error component x every perturbation direction; exact real arithmetic (no rounding); SE(2) wrap excluded (derivative taken on the branch k=const)"
 OUTSIDE = "floating-point rounding; the measure-zero set where the SE(2) angular error wraps"
 ASSUMPTIONS = [
     "dual-number semantics of + - * / sqrt cos sin is the derivative (validated per run against a central difference of the real calc_error on float64)",
@@ -18,9 +18,28 @@ ASSUMPTIONS = [
 ]
 
 
-def _case(ek):
+def _move(P, g, e, v1, v2, mode):
+    """a history before the Jacobians are read: every query is evaluated once, then the vertices are moved to new
+    arbitrary poses (in-place array assignment or rebinding); the Jacobians are requested FIRST afterwards"""
+    from .common import mk_pose
+
+    e.calc_error()
+    e.calc_jacobians()
+    e.calc_chi2()
+    for k, v in enumerate((v1, v2)):
+        kind = {g.PoseR2: "R2", g.PoseR3: "R3", g.PoseSE2: "SE2", g.PoseSE3: "SE3"}[type(v.pose)]
+        new = mk_pose(P, g, kind, "moved%d" % k, wrapped=True)
+        if mode == "inplace":
+            v.pose[:] = new.to_array()
+        else:
+            v.pose = new
+
+
+def _case(ek, mode=None):
     def fn(P, g):
         e, v1, v2 = mk_edge(P, g, ek)
+        if mode is not None:
+            _move(P, g, e, v1, v2, mode)
         jac = e.calc_jacobians()
         P.check("two_jacobians", len(jac) == 2)
         for k, v in enumerate((v1, v2)):
@@ -44,4 +63,6 @@ def cases(tier):
     out = []
     for ek in EDGE_KINDS:
         out.append(Case("%s-%s" % ek, _case(ek), timeout=20, old_timeout=30, validate=2 if tier == "quick" else 6))
+        for mode in ("inplace", "rebind"):
+            out.append(Case("history-%s-%s-%s" % (mode, ek[0], ek[1]), _case(ek, mode), timeout=20, old_timeout=30, validate=1))
     return out
